@@ -63,9 +63,6 @@ func bigRealLit(r *big.Rat) string {
 
 // nilCheck emits a nil-dereference obligation for pointer value v unless already checked.
 func (vc *VC) nilCheck(fr *Frame, st *State, v ssa.Value, p Term, pos token.Pos, what string) {
-	if !vc.safety {
-		return
-	}
 	switch v.(type) {
 	case *ssa.Alloc, *ssa.Global, *ssa.FieldAddr, *ssa.IndexAddr, *ssa.MakeClosure, *ssa.FreeVar:
 		return
@@ -184,7 +181,7 @@ func (vc *VC) instr(fr *Frame, st *State, ins ssa.Instruction) {
 		et := t.Type().Underlying().(*types.Slice).Elem()
 		l := vc.asInt(vc.val(fr, t.Len))
 		c := vc.asInt(vc.val(fr, t.Cap))
-		if vc.safety {
+		if true {
 			vc.addObl(fr, st, "makeslice", "len", And(Le(IntLit(0), l), Le(l, c)), nil, t.Pos())
 		}
 		p := vc.allocObj(st, et, fr.prefix+"_"+t.Name())
@@ -288,7 +285,7 @@ func (vc *VC) typeAssert(fr *Frame, st *State, t *ssa.TypeAssert) {
 		fr.tuples[t] = []Term{Ite(okd, v, vc.zero(t.AssertedType)), okd}
 		return
 	}
-	if vc.safety {
+	if true {
 		vc.addObl(fr, st, "typeassert", "", ok, nil, t.Pos())
 	}
 	vc.q.Assert(Implies(st.reach, ok))
@@ -491,7 +488,7 @@ func (vc *VC) binop(fr *Frame, st *State, t *ssa.BinOp) Term {
 	case token.MUL:
 		return wrap(App(SInt, "*", x, y), false)
 	case token.QUO, token.REM:
-		if vc.safety {
+		if true {
 			vc.addObl(fr, st, "div0", "", Not(Eq(y, IntLit(0))), nil, t.Pos())
 		}
 		if !rt.signed {
@@ -609,7 +606,7 @@ func (vc *VC) binopBV(fr *Frame, st *State, t *ssa.BinOp, x, y Term, ii intInfo)
 	case token.MUL:
 		return App(s, "bvmul", x, y)
 	case token.QUO:
-		if vc.safety {
+		if true {
 			vc.addObl(fr, st, "div0", "", Not(Eq(y, BVLit(big.NewInt(0), s.BVWidth()))), nil, t.Pos())
 		}
 		if ii.signed {
@@ -617,7 +614,7 @@ func (vc *VC) binopBV(fr *Frame, st *State, t *ssa.BinOp, x, y Term, ii intInfo)
 		}
 		return App(s, "bvudiv", x, y)
 	case token.REM:
-		if vc.safety {
+		if true {
 			vc.addObl(fr, st, "div0", "", Not(Eq(y, BVLit(big.NewInt(0), s.BVWidth()))), nil, t.Pos())
 		}
 		if ii.signed {
@@ -758,7 +755,7 @@ func (vc *VC) mapUpdate(fr *Frame, st *State, t *ssa.MapUpdate) {
 			v = vc.makeIface(v, t.Value.Type())
 		}
 	}
-	if vc.safety {
+	if true {
 		vc.addObl(fr, st, "nil", "mapupdate", Not(Eq(m, NilP)), nil, t.Pos())
 	}
 	dn, vn, ks, vs := vc.mapNames(mt)
@@ -843,7 +840,7 @@ func (vc *VC) sliceOp(fr *Frame, st *State, t *ssa.Slice) {
 		} else {
 			mx = SCap(x)
 		}
-		if vc.safety {
+		if true {
 			vc.addObl(fr, st, "bounds", "slice", And(Le(IntLit(0), lo), Le(lo, hi), Le(hi, mx), Le(mx, SCap(x))), nil, t.Pos())
 			if vc.withinLen(fr) {
 				vc.addObl(fr, st, "within-len", "slice", Le(hi, SLen(x)), nil, t.Pos())
@@ -857,7 +854,7 @@ func (vc *VC) sliceOp(fr *Frame, st *State, t *ssa.Slice) {
 		} else {
 			hi = n
 		}
-		if vc.safety {
+		if true {
 			vc.addObl(fr, st, "bounds", "strslice", And(Le(IntLit(0), lo), Le(lo, hi), Le(hi, n)), nil, t.Pos())
 		}
 		r := vc.defVal(fr, t, App(SStr, "strsub", x, lo, hi))
@@ -876,7 +873,7 @@ func (vc *VC) sliceOp(fr *Frame, st *State, t *ssa.Slice) {
 			mx = n
 		}
 		vc.nilCheck(fr, st, t.X, x, t.Pos(), "slice")
-		if vc.safety {
+		if true {
 			vc.addObl(fr, st, "bounds", "slice", And(Le(IntLit(0), lo), Le(lo, hi), Le(hi, mx), Le(mx, n)), nil, t.Pos())
 		}
 		vc.defVal(fr, t, MkSlice(x, lo, Sub(hi, lo), Sub(mx, lo)))
